@@ -305,8 +305,12 @@ func UnmarshalFromFunc[T any](fn func(*jsontext.Decoder, T) error) *Unmarshalers
 		fnc: func(dec *jsontext.Decoder, va addressableValue, uo *jsonopts.Struct) error {
 			xd := export.Decoder(dec)
 			prevDepth, prevLength := xd.Tokens.DepthLength()
-			if prevDepth == 1 && xd.AtEOF() {
-				return io.EOF // check EOF early to avoid fn reporting an EOF
+			if prevDepth == 1 {
+				if eof, err := xd.AtEOFOrError(); err != nil {
+					return err // report a read error rather than letting fn run into an EOF
+				} else if eof {
+					return io.EOF // check EOF early to avoid fn reporting an EOF
+				}
 			}
 			prevMinDepth := xd.Tokens.MinDepth
 			xd.Tokens.MinDepth = prevDepth
